@@ -226,14 +226,6 @@ def run(ctx):
                     badp = badp or 'queue lengths %s: entry %d of channel %d ends with time %s id %s (documented: every queued entry becomes due now = 7000, nothing else changes)' % (lens, i_, c_, sorted(dt) if dt not in (None, TOP) else dt, sorted(idv) if idv not in (None, TOP) else idv)
     r4.check(badp is None, 'pqrun-sets-every-channel-entry-to-recent', prf.unit + ':pqrun', badp or '')
     pf = prog.fn('pqfinish', 'qmail-send.c')
-    ut = pf.calls('utimes')
-    okf = False
-    if ut:
-        role = qsend.static_role(pf, ut[0], ut[0].args[0], prog)
-        tv = [x for x in pf.all_x() if x.k == 'asg' and x.args[0].src().endswith('.tv_sec') and x.args[-1].src().endswith('pe.dt')]
-        mins = pf.calls('prioq_min')
-        okf = role == 'chan' and bool(tv) and pf.dominates(tv[0], ut[0]) and bool(mins) and 'pqchan[c]' in mins[0].args[0].src()
-    r4.check(okf, 'pqfinish-saves-each-entry-time-as-mtime', pf.unit + ':pqfinish', 'utimes(channel file, pe.dt) for every entry of every channel queue')
     pa = prog.fn('pqadd', 'qmail-send.c')
     rd = [x for x in pa.all_x() if x.k == 'asg' and x.args[0].src().endswith('.dt') and 'st_mtim' in x.args[1].src()]
     okp = False
